@@ -37,7 +37,9 @@ def _patched_time():
     s = _CUR[0]
     if s is None:
         return _real_time()
-    return s.now
+    # the wall clock: the simulator's (monotonic) clock plus whatever steps
+    # the wall clock was given (NTP correction, date -s, VM resume)
+    return s.now + s.wall_offset
 
 
 def _patched_sleep(d):
@@ -64,6 +66,7 @@ class Sim(object):
         self.seed = seed
         self.rng = random.Random(seed)
         self.now = EPOCH
+        self.wall_offset = 0.0     # wall clock - monotonic clock
         self.seq = 0               # global event sequence number
         self.steps = 0             # loop steps executed
         self.ncalls = 0            # kernel calls (boundary index)
